@@ -198,6 +198,10 @@ func (x *Exec) doReturn(st *State, fr *Frame, rs []Val, ins *ssa.Return) ([]*Sta
 func (x *Exec) topReturn(st *State, fr *Frame, rs []Val, ins *ssa.Return) {
 	vc := x.vc
 	vc.retPaths++
+	// vacuity guard: the assumptions collected along a returning path should be satisfiable (checked per function:
+	// at least one returning path must not be refutable)
+	vc.obls = append(vc.obls, &Obligation{Name: shortFuncName(vc.fn) + "#cover.return", Func: shortFuncName(vc.fn), Kind: "cover", Label: "return",
+		Props: vc.spec.Props, Src: x.prog.Fset.Position(ins.Pos()).String(), Assumptions: append([]*Term{}, st.pc...), Goal: TFalse, Cover: true, Path: vc.paths})
 	env := x.entryEnv(st)
 	res := fr.fn.Signature.Results()
 	for i, r := range rs {
@@ -517,6 +521,14 @@ func (x *Exec) dynamicCall(st *State, fr *Frame, call *ssa.Call, fv Val, args []
 	cnt, ok := st.ghost[ckey]
 	if !ok {
 		cnt = IntLit(0)
+		for _, f := range st.frames {
+			if len(f.open) > 0 {
+				// first seen inside a loop: earlier iterations may have called it already
+				cnt = x.freshVar("calls_in", SInt)
+				st.assume(Cmp(">=", cnt, IntLit(0)))
+				break
+			}
+		}
 	}
 	x.bumpAlloc(st)
 	var res Val
